@@ -3,19 +3,17 @@ CONSTANTS NW = 2
  MaxD = 4
  MaxS = 3
  MaxTag = 3
- MaxObj = 1
- MaxQ = 1
+ MaxObj = 2
  MaxL = 4
- Flags = {0, 1, 2}
- YieldOpts = {2}
- Ops = {"create", "join", "tryjoin", "detach", "yield"}
+ MaxQ = 5
+ SCN = "once"
+ NT = 3
+ K = 1
+ ND = 1
+ BCAST = 0
 INVARIANT OK
 INVARIANT ExactlyOnePlace
 INVARIANT RunnableSaved
 INVARIANT RunOnce
 INVARIANT ReapOnce
-INVARIANT NoUseAfterFree
-INVARIANT StackOwner
-
-INVARIANT QuiescentLedger
 CHECK_DEADLOCK TRUE
